@@ -12,5 +12,7 @@ CONSTANTS
   OblDirtyRefused = TRUE
   OblIdempotent = FALSE
   OblFence = TRUE
+  AllowXA = FALSE
+  OblXATruthful = TRUE
 INVARIANTS TypeOK ATAtomicRollback TCCAtomic NoDirtyGlobalWrite RollbackPossible
 CHECK_DEADLOCK FALSE
